@@ -31,6 +31,9 @@ structure Bar where
   start : Nat := 0                  -- creation time (AtomicPosition.start)
   posLim : Limiter.St := { cap := 10, prev := 0 }
   target : Option TermTarget := none    -- `none` = hidden
+  /-- (row-level model of a MultiProgress only, `Model/Rows`) the width at which this bar's lines wrap on the multi's
+  terminal; 0 = they never wrap. No single-bar operation reads it. -/
+  wrapW : Nat := 0
 deriving Repr
 
 def U64 : Nat := 2 ^ 64
